@@ -55,6 +55,7 @@ pub enum V {
     BitOr(Box<V>, Box<V>),
     Push(Box<V>, usize),
     Ext(Box<V>, Vec<u8>),
+    ExtKind(String, Box<V>, Vec<u8>),
     Append(Box<V>, Box<S>),
     Prepend(Box<V>, Box<S>),
     Insert(Box<V>, usize, Box<S>),
@@ -206,6 +207,11 @@ fn parse_v_kw(k: &str, t: &mut Toks) -> PResult<V> {
         "ext" => {
             let h = t.hex()?;
             V::Ext(Box::new(parse_v(t)?), h)
+        }
+        "extk" => {
+            let kind = t.next()?.to_string();
+            let h = t.hex()?;
+            V::ExtKind(kind, Box::new(parse_v(t)?), h)
         }
         "append" => V::Append(Box::new(parse_v(t)?), Box::new(parse_s(t)?)),
         "prepend" => V::Prepend(Box::new(parse_v(t)?), Box::new(parse_s(t)?)),
